@@ -306,7 +306,14 @@ func driver(args []string) int {
 			// a worker died (watchdog, out of memory, fatal error in the code under test): keep
 			// what it had streamed out, remember that the run is incomplete
 			failedWorkers++
-			fmt.Printf("note: worker %d failed: %v\n%s\n", i, r.err, tail(r.errS, 6))
+			why := ""
+			for _, line := range strings.Split(r.errS, "\n") {
+				if strings.HasPrefix(line, "fatal error:") || strings.HasPrefix(line, "panic:") || strings.HasPrefix(line, "WATCHDOG") {
+					why = line + "\n"
+					break
+				}
+			}
+			fmt.Printf("note: worker %d failed: %v\n%s%s\n", i, r.err, why, tail(r.errS, 6))
 			if b, err := os.ReadFile(filepath.Join(scratch, fmt.Sprintf("viol.%s.%d.jsonl", f.prop, i))); err == nil {
 				for _, line := range bytes.Split(b, []byte("\n")) {
 					v := &Violation{}
